@@ -82,6 +82,26 @@ pub struct CaseInfo {
     pub extra_runs: u64,
 }
 
+thread_local! {
+    static JOURNAL_SLOT: std::cell::Cell<usize> = const { std::cell::Cell::new(usize::MAX) };
+}
+static JOURNAL_NEXT: AtomicUsize = AtomicUsize::new(0);
+
+/// Crash journal: with PVF_JOURNAL=<dir> every worker thread writes the case it is about to
+/// execute (as a replay document) to its own file, so that a case which kills the whole process
+/// (allocation failure, stack overflow) can be identified by `bin/check` afterwards.
+pub fn journal<T: Serialize>(id: &str, case: &T) {
+    let Ok(dir) = std::env::var("PVF_JOURNAL") else { return };
+    let slot = JOURNAL_SLOT.with(|s| {
+        if s.get() == usize::MAX {
+            s.set(JOURNAL_NEXT.fetch_add(1, Ordering::SeqCst));
+        }
+        s.get()
+    });
+    let doc = json!({"property": id, "signature": format!("{id}|process-abort"), "message": "the process died while executing this case", "case": case});
+    let _ = std::fs::write(format!("{dir}/{id}-{slot}.json"), doc.to_string());
+}
+
 pub fn hash_of<T: Hash>(t: &T) -> u64 {
     let mut h = std::collections::hash_map::DefaultHasher::new();
     t.hash(&mut h);
@@ -327,6 +347,7 @@ where
                         // another worker found a violation: stop generating (counts nothing)
                         return Ok(());
                     }
+                    journal(ctx.id, &case);
                     match test(&case) {
                         Ok(info) => {
                             if !failed.load(Ordering::SeqCst) {
@@ -390,6 +411,7 @@ where
                     if i >= cases.len() {
                         break;
                     }
+                    journal(ctx.id, &cases[i]);
                     match test(&cases[i]) {
                         Ok(info) => ctx.record(info),
                         Err(f) => {
